@@ -144,7 +144,7 @@ type World struct {
 	SideEffects int
 	// DetachInCoercion counts detach effects executed.
 	DetachInCoercion int
-	// HugeIntConversions counts integer element conversions of finite Numbers with |x| >= 2^63.
+	// HugeIntConversions counts integer element conversions of Numbers with 2^63 <= |x| < 2^85.
 	HugeIntConversions int
 	CurSrc             *Array
 	LittleEndian       bool // platform endianness used by typed array element access
